@@ -471,3 +471,119 @@ def c13(run):
              "non-trivial = every call/extract event (result compared with the value of the ORIGINAL payload and snapshot compared with it)",
         assumptions=["payload content: one pairwise-distinct pattern and one with NUL bytes"],
         fresh=False, mcs=[("MC_Registers", "MC_Registers_Ref.cfg", False), ("MC_Registers", "MC_Registers_Swap.cfg", True)])
+
+
+# ---------------------------------------------------------------- splitter family
+def split_confirm(run):
+    state = {"n": 0}
+
+    def confirm(v):
+        e = v.get("event") or {}
+        state["n"] += 1
+        if state["n"] > 15:
+            return "confirmed"
+        if e.get("ev") == "split":
+            case = {"op": "split", "target": e["target"], "fields": e["fields"], "e2e": False, "mem": 0}
+        elif e.get("ev") == "extract":
+            case = {"op": "split", "target": e["target"], "fields": e["req"]["fields"], "e2e": True, "mem": e["mem"]}
+        else:
+            return "confirmed"
+        cp, tp = run.path("confirm-%d.cases" % state["n"]), run.path("confirm-%d.trace" % state["n"])
+        with open(cp, "w") as f:
+            f.write(json.dumps(case) + "\n")
+        run.drive("split", cp, tp)
+        vs, _ = run.validate("Trace_Split", "Trace_Split.cfg", tp, shards=1)
+        v["context"] = {"replay_case": case, "family": "split", "trace_spec": "Trace_Split"}
+        return "confirmed" if any(x["verdict"] == v["verdict"] for x in vs) else "unreproduced"
+    return confirm
+
+
+def random_fields(rnd, n, coil):
+    servers = ["a:1", "b:2"]
+    base = rnd.choice([0, 100, 1000, 30000, 65536 - 300, 65536 - 130])
+    dense = rnd.random() < 0.5
+    fs = []
+    for i in range(n):
+        if coil:
+            addr = min(65535, base + (rnd.randint(0, 2100) if dense else rnd.randint(0, 5000)))
+            fs.append({"server": rnd.choice(servers), "unit": rnd.choice([1, 2]), "addr": addr, "type": 14, "bit": 0, "high": 0, "len": 0, "order": 0, "name": "c%d" % i})
+            continue
+        ty = rnd.randint(1, 13)
+        size = {7: 2, 8: 2, 11: 2, 9: 4, 10: 4, 12: 4}.get(ty, 1)
+        ln = 0
+        if ty == 13:
+            ln = rnd.choice([1, 2, 3, 10, 11, 100, 248, 250])
+            size = (ln + 1) // 2
+        addr = base + (rnd.randint(0, 130) if dense else rnd.randint(0, 300))
+        addr = max(0, min(65536 - size, addr))
+        fs.append({"server": rnd.choice(servers), "unit": rnd.choice([1, 2]), "addr": addr, "type": ty, "bit": rnd.randint(0, 15), "high": rnd.randint(0, 1),
+                   "len": ln, "order": rnd.choice([0, 5, 9, 6, 10]), "name": "f%d" % i})
+    return fs
+
+
+def split_pipeline(run, setname, extra_cases, rule, assumptions, mcs):
+    cases, trace = run.path("cases.ndjson"), run.path("trace.ndjson")
+    open(cases, "w").close()
+    for module, cfg, expect in mcs:
+        mc(run, module, cfg, expect_violation=expect, workers=8)
+    ngen = gen_family(run, "Gen_Split", setname, cases)
+    nextra = append_cases(cases, extra_cases)
+    run.drive("split", cases, trace)
+    verdicts, nev = run.validate("Trace_Split", "Trace_Split.cfg", trace)
+    harness_bad = [v for v in verdicts if v["verdict"].startswith("harness-")]
+    if harness_bad:
+        raise Infra("the driver supplied a wrong device answer / malformed case: %s" % json.dumps(harness_bad[0])[:1500])
+    kn, viol = vlib.settle(run, verdicts)
+    ops = vlib.count_ops(trace, key="ev")
+    errs = count_where(trace, lambda e: e.get("ev") == "split" and e.get("outcome") == "err")
+    cov = {
+        "states": run.tlc_stats["states"], "transitions": run.tlc_stats["transitions"],
+        "traces_validated_against_impl": nev,
+        "evaluations": nev,
+        "distinct_nontrivial": count_where(trace, lambda e: (e.get("ev") == "split" and e.get("outcome") == "ok" and len(e.get("requests", [])) > 0) or e.get("ev") == "extract"),
+        "rule": rule, "spec_generated_cases": ngen, "harness_random_cases": nextra, "events_by_kind": ops,
+        "split_calls_returning_error": errs,
+        "samples": vlib.sample_lines(trace, 3), "exhaustive": False,
+    }
+    return vlib.finish(run, "model_checking", cov, assumptions, kn, viol, confirm=split_confirm(run))
+
+
+@check("C06")
+def c06(run):
+    T = run.tier == "thorough"
+    rnd = random.Random(run.seed)
+    ex = []
+    for i in range(3000 if T else 400):
+        coil = rnd.random() < 0.3
+        fs = random_fields(rnd, rnd.randint(1, 40), coil)
+        if rnd.random() < 0.2:
+            fs += random_fields(rnd, rnd.randint(1, 5), not coil)
+        fc = rnd.choice([1, 2]) if coil else rnd.choice([3, 4])
+        ex.append({"op": "split", "target": {"fc": fc, "framing": rnd.choice(["tcp", "rtu"])}, "fields": fs, "e2e": False, "mem": 0})
+    return split_pipeline(
+        run, "c06", ex,
+        rule="ALL sub-lists of size <= 3 (thorough: 4) of a 16-entry register menu and an 8-entry coil menu built around the limits (125/2000), the top of the address space, "
+             "2 servers x 2 units, same-address fields of different width, x 4 targets each; special lists (duplicates, 125/126/128-register strings, one invalid definition per "
+             "Validate rule, mixed kinds, both ends of the address space) x 8 targets; seeded random lists of up to 40 fields; non-trivial = split returned requests and every "
+             "clause of C06 was evaluated on them (error outcomes are allowed by the statement and counted separately)",
+        assumptions=["requests are compared as multisets (map iteration makes their order nondeterministic)",
+                     "fields whose span would exceed address 65535 are not generated"],
+        mcs=[("MC_Splitter", "MC_Splitter_Ref.cfg", False), ("MC_Splitter", "MC_Splitter_Wrap.cfg", True)])
+
+
+@check("C05")
+def c05(run):
+    T = run.tier == "thorough"
+    rnd = random.Random(run.seed + 7)
+    ex = []
+    for i in range(600 if T else 80):
+        fs = random_fields(rnd, rnd.randint(1, 25), False)
+        ex.append({"op": "split", "target": {"fc": rnd.choice([3, 4]), "framing": rnd.choice(["tcp", "rtu"])}, "fields": fs, "e2e": True, "mem": rnd.randint(0, 1)})
+    return split_pipeline(
+        run, "c05", ex,
+        rule="field lists (menu sub-lists + special lists + seeded random lists) -> real builder -> for every produced request a device answer over the SPECIFICATION's memory function "
+             "(validated by the monitor) complete and truncated by 1..4, qty/2, qty-1 registers -> real response parser -> ExtractFields strict and lenient; non-trivial = every "
+             "extract event (each reported field compared with the value decoded directly from device memory at the field's own address)",
+        assumptions=["device answers are computed by the harness from the same memory formula and validated by the monitor against the specification's device (mismatch = exit 2)",
+                     "16-bit and narrower field types use wire order (Field documentation); order 0 means big endian high word first"],
+        mcs=[])
